@@ -6,8 +6,9 @@ C02 round 4, part E: `SnapWF` holds in every state reachable from the empty stor
   * a service instance (node, id) registered under two names, i.e. renamed in place — known findings
     `snap:checks:ServiceName:stale-online-copy` / `snap:kind-service-names:row-stale-after-service-renamed`
     (the stored checks keep the old name, `restore_snapshot_store_counterexample`);
-  * a session ID created twice (while the first is live, insertSessionTxn leaves the old session's check links
-    behind; the discipline cannot see liveness, so it asks for distinct IDs — the servers draw fresh UUIDs);
+  * a session created under the ID of a session that is live at that point of the history (insertSessionTxn
+    replaces the row and leaves the old session's check links behind; the servers draw fresh UUIDs, so no real
+    history has this shape — `sessNewB` replays the model to see which sessions are live);
   * NUL characters in node names and session IDs (they are separators of the composite memdb keys);
   * Raft index 0 (a node created at index 0 has CreateIndex 0, which `Restore.Registration` cannot tell from
     "no such node" — Raft indexes start at 1).
@@ -74,7 +75,16 @@ def Cmd.sessId : Cmd → Option String
 /-- the session IDs a log creates, in order -/
 def sessIds (log : Log) : List String := log.filterMap (fun ic => ic.2.sessId)
 
-structure SnapDisc (log : Log) : Prop where
+/-- every session is created under a NUL-free ID that is not live at that point of the history -/
+def sessNewB : State → Log → Bool
+  | _, [] => true
+  | s, (i, c) :: rest =>
+    (match c.sessId with
+      | some id => decide (NF id) && (sessFind s id).isNone
+      | none => true) && sessNewB (apply s i c).1 rest
+
+/-- the naming part of the discipline -/
+structure NameDisc (log : Log) : Prop where
   /-- Raft indexes start at 1 -/
   idxPos : ∀ ic ∈ log, ic.1 ≠ 0
   /-- node names are NUL-free and come in one spelling -/
@@ -83,25 +93,35 @@ structure SnapDisc (log : Log) : Prop where
   svcs : ∀ ic ∈ log, ∀ t ∈ ic.2.svcs, ∀ ic' ∈ log, ∀ u ∈ ic'.2.svcs, pk2 t.1 t.2.1 = pk2 u.1 u.2.1 → t.2.2 = u.2.2
   /-- check payloads name NUL-free nodes -/
   chks : ∀ ic ∈ log, ∀ t ∈ ic.2.chks, NF t.1
-  /-- session IDs are NUL-free and never created twice -/
-  sessNF : ∀ a ∈ sessIds log, NF a
-  sessNew : ((sessIds log).map lc).Nodup
+
+structure SnapDisc (log : Log) : Prop extends NameDisc log where
+  /-- session IDs are NUL-free and not live when they are created -/
+  sessNew : sessNewB State.empty log = true
 
 instance (log : Log) : Decidable (SnapDisc log) :=
   decidable_of_iff
     ((∀ ic ∈ log, ic.1 ≠ 0) ∧
      (∀ ic ∈ log, ∀ a ∈ ic.2.nodes, NF a ∧ ∀ ic' ∈ log, ∀ b ∈ ic'.2.nodes, lc a = lc b → a = b) ∧
      (∀ ic ∈ log, ∀ t ∈ ic.2.svcs, ∀ ic' ∈ log, ∀ u ∈ ic'.2.svcs, pk2 t.1 t.2.1 = pk2 u.1 u.2.1 → t.2.2 = u.2.2) ∧
-     (∀ ic ∈ log, ∀ t ∈ ic.2.chks, NF t.1) ∧ (∀ a ∈ sessIds log, NF a) ∧ ((sessIds log).map lc).Nodup)
-    ⟨fun ⟨a, b, c, d, e, f⟩ => ⟨a, b, c, d, e, f⟩, fun ⟨a, b, c, d, e, f⟩ => ⟨a, b, c, d, e, f⟩⟩
+     (∀ ic ∈ log, ∀ t ∈ ic.2.chks, NF t.1) ∧ sessNewB State.empty log = true)
+    ⟨fun ⟨a, b, c, d, e⟩ => ⟨⟨a, b, c, d⟩, e⟩, fun ⟨⟨a, b, c, d⟩, e⟩ => ⟨a, b, c, d, e⟩⟩
+
+theorem sessNewB_take (log : Log) : ∀ (s : State) (k : Nat), sessNewB s log = true → sessNewB s (log.take k) = true := by
+  induction log with
+  | nil => intro s k h; simp [sessNewB]
+  | cons ic rest ih =>
+    intro s k h
+    obtain ⟨i, c⟩ := ic
+    cases k with
+    | zero => simp [sessNewB]
+    | succ k =>
+      simp only [List.take_succ_cons, sessNewB, Bool.and_eq_true] at h ⊢
+      exact ⟨h.1, ih _ k h.2⟩
 
 theorem SnapDisc.take {log : Log} (h : SnapDisc log) (k : Nat) : SnapDisc (log.take k) := by
   have hm : ∀ ic ∈ log.take k, ic ∈ log := fun ic hic => List.mem_of_mem_take hic
-  have hsub : (sessIds (log.take k)).Sublist (sessIds log) := by
-    unfold sessIds
-    exact (List.take_sublist k log).filterMap _
-  refine ⟨fun ic hic => h.idxPos ic (hm ic hic), ?_, ?_, fun ic hic => h.chks ic (hm ic hic),
-    fun a ha => h.sessNF a (hsub.subset ha), (hsub.map lc).nodup h.sessNew⟩
+  refine ⟨⟨fun ic hic => h.idxPos ic (hm ic hic), ?_, ?_, fun ic hic => h.chks ic (hm ic hic)⟩,
+    sessNewB_take log _ k h.sessNew⟩
   · intro ic hic a ha
     obtain ⟨h1, h2⟩ := h.nodes ic (hm ic hic) a ha
     exact ⟨h1, fun ic' hic' b hb => h2 ic' (hm ic' hic') b hb⟩
@@ -117,7 +137,7 @@ def Names.ofLog (log : Log) : Names where
     | some a => a
     | none => ""
 
-theorem SnapDisc.guard {log : Log} (h : SnapDisc log) : ∀ ic ∈ log, ic.2.ok (Names.ofLog log).guard := by
+theorem NameDisc.guard {log : Log} (h : NameDisc log) : ∀ ic ∈ log, ic.2.ok (Names.ofLog log).guard := by
   intro ic hic
   refine ⟨fun _ _ => trivial, ?_, ?_, ?_⟩
   · intro t ht
@@ -157,37 +177,77 @@ theorem SnapDisc.guard {log : Log} (h : SnapDisc log) : ∀ ic ∈ log, ic.2.ok 
 
 /-! ### reachability -/
 
-/-- the walk along the log: `C` collects the (lower-cased) session IDs created so far -/
-theorem w_replay (N : Names) (log : Log) : ∀ (s : State) (C : List String), W N C LSc s →
-    (∀ ic ∈ log, ic.1 ≠ 0 ∧ ic.2.ok N.guard) → (∀ a ∈ sessIds log, NF a ∧ lc a ∉ C) → ((sessIds log).map lc).Nodup →
-    ∃ C', W N C' LSc (replay s log) := by
+/-- the walk along the log; `C` is any list that contains the (lower-cased) session IDs the log creates -/
+theorem w_replay (N : Names) (C : List String) (log : Log) : ∀ (s : State), W N C LSc s →
+    (∀ ic ∈ log, ic.1 ≠ 0 ∧ ic.2.ok N.guard) → (∀ a ∈ sessIds log, lc a ∈ C) → sessNewB s log = true →
+    W N C LSc (replay s log) := by
   induction log with
-  | nil => intro s C h _ _ _; exact ⟨C, h⟩
+  | nil => intro s h _ _ _; exact h
+  | cons ic rest ih =>
+    intro s h hok hin hnew
+    obtain ⟨i, c⟩ := ic
+    obtain ⟨hi, hG⟩ := hok (i, c) List.mem_cons_self
+    have hok' : ∀ ic ∈ rest, ic.1 ≠ 0 ∧ ic.2.ok N.guard := fun x hx => hok x (List.mem_cons_of_mem _ hx)
+    simp only [sessNewB, Bool.and_eq_true] at hnew
+    obtain ⟨hnew1, hnew2⟩ := hnew
+    show W N C LSc (replay (apply s i c).1 rest)
+    have hin' : ∀ a ∈ sessIds rest, lc a ∈ C := by
+      intro a ha
+      refine hin a ?_
+      unfold sessIds at ha ⊢
+      rw [List.filterMap_cons]
+      split
+      · exact ha
+      · exact List.mem_cons_of_mem _ ha
+    refine ih _ (w_apply i hi c hG ?_ h) hok' hin' hnew2
+    intro r hr; subst hr
+    simp only [Cmd.sessId, Bool.and_eq_true, decide_eq_true_eq] at hnew1
+    obtain ⟨hnf, hnone⟩ := hnew1
+    refine ⟨hnf, hin r.id (by simp [sessIds, List.filterMap_cons, Cmd.sessId]), ?_⟩
+    intro y hy e
+    have hfn : sessFind s r.id = none := by
+      cases hf : sessFind s r.id with
+      | none => rfl
+      | some x => rw [hf] at hnone; simp at hnone
+    exact tfind_none hfn y hy e
+
+theorem w_reachable (log : Log) (hd : SnapDisc log) :
+    W (Names.ofLog log) ((sessIds log).map lc) LSc (replay State.empty log) :=
+  w_replay (Names.ofLog log) _ log State.empty ((w_empty _).mono (fun _ h => by cases h))
+    (fun ic hic => ⟨hd.idxPos ic hic, hd.toNameDisc.guard ic hic⟩)
+    (fun a ha => List.mem_map_of_mem ha) hd.sessNew
+
+/-- the syntactic form of the session clause: NUL-free IDs, no ID created twice -/
+theorem sessNewB_of_distinct (N : Names) (log : Log) : ∀ (s : State) (C : List String), W N C LSc s →
+    (∀ ic ∈ log, ic.1 ≠ 0 ∧ ic.2.ok N.guard) → (∀ a ∈ sessIds log, NF a ∧ lc a ∉ C) → ((sessIds log).map lc).Nodup →
+    sessNewB s log = true := by
+  induction log with
+  | nil => intro s C _ _ _ _; rfl
   | cons ic rest ih =>
     intro s C h hok hnew hnd
     obtain ⟨i, c⟩ := ic
     obtain ⟨hi, hG⟩ := hok (i, c) List.mem_cons_self
     have hok' : ∀ ic ∈ rest, ic.1 ≠ 0 ∧ ic.2.ok N.guard := fun x hx => hok x (List.mem_cons_of_mem _ hx)
-    show ∃ C', W N C' LSc (replay (apply s i c).1 rest)
+    simp only [sessNewB, Bool.and_eq_true]
     cases hs : c.sessId with
     | none =>
       have hids : sessIds ((i, c) :: rest) = sessIds rest := by simp [sessIds, List.filterMap_cons, hs]
       rw [hids] at hnew hnd
-      refine ih _ C (w_apply i hi c hG ?_ h) hok' hnew hnd
+      refine ⟨rfl, ih _ C (w_apply i hi c hG ?_ h) hok' hnew hnd⟩
       intro r hr; subst hr; simp [Cmd.sessId] at hs
     | some id =>
       have hids : sessIds ((i, c) :: rest) = id :: sessIds rest := by simp [sessIds, List.filterMap_cons, hs]
       rw [hids] at hnew hnd
       obtain ⟨hnf, hnotin⟩ := hnew id List.mem_cons_self
       rw [List.map_cons, List.nodup_cons] at hnd
+      have hfresh : ∀ y ∈ s.sessions, lc y.id ≠ lc id := fun y hy e => hnotin (e ▸ h.sess.sessIn y hy)
+      have hnone : sessFind s id = none := tfind_none_of_keys (fun y hy => hfresh y hy)
       have h' : W N (lc id :: C) LSc s := h.mono (fun a ha => List.mem_cons_of_mem _ ha)
-      refine ih _ (lc id :: C) (w_apply i hi c hG ?_ h') hok' ?_ hnd.2
+      refine ⟨by simp [hnf, hnone], ih _ (lc id :: C) (w_apply i hi c hG ?_ h') hok' ?_ hnd.2⟩
       · intro r hr; subst hr
         simp only [Cmd.sessId, Option.some.injEq] at hs
         subst hs
-        refine ⟨hnf, List.mem_cons_self, ?_⟩
-        intro y hy e
-        exact hnotin (e ▸ h.sess.sessIn y hy)
+        exact ⟨hnf, List.mem_cons_self, hfresh⟩
       · intro a ha
         obtain ⟨h1, h2⟩ := hnew a (List.mem_cons_of_mem _ ha)
         refine ⟨h1, ?_⟩
@@ -196,10 +256,10 @@ theorem w_replay (N : Names) (log : Log) : ∀ (s : State) (C : List String), W 
         · exact hnd.1 (e ▸ List.mem_map_of_mem ha)
         · exact h2 e
 
-theorem w_reachable (log : Log) (hd : SnapDisc log) : ∃ C, W (Names.ofLog log) C LSc (replay State.empty log) :=
-  w_replay (Names.ofLog log) log State.empty [] (w_empty _)
-    (fun ic hic => ⟨hd.idxPos ic hic, hd.guard ic hic⟩)
-    (fun a ha => ⟨hd.sessNF a ha, by simp⟩) hd.sessNew
+theorem SnapDisc.ofDistinct {log : Log} (h : NameDisc log) (hnf : ∀ a ∈ sessIds log, NF a)
+    (hnd : ((sessIds log).map lc).Nodup) : SnapDisc log :=
+  ⟨h, sessNewB_of_distinct (Names.ofLog log) log State.empty [] (w_empty _)
+    (fun ic hic => ⟨h.idxPos ic hic, h.guard ic hic⟩) (fun a ha => ⟨hnf a ha, by simp⟩) hnd⟩
 
 /-! ### from `W` to `SnapWF` -/
 
@@ -280,7 +340,6 @@ theorem w_snapWF {N : Names} {C : List String} {s : State} (h : W N C LSc s) (hk
   idxCover := cov_covers h.cov
 
 theorem snapWF_reachable (log : Log) (hd : SnapDisc log) : SnapWF (replay State.empty log) := by
-  obtain ⟨C, h⟩ := w_reachable log hd
-  exact w_snapWF h (kvSorted_replay _ log kvSorted_empty)
+  exact w_snapWF (w_reachable log hd) (kvSorted_replay _ log kvSorted_empty)
 
 end CV.Store
